@@ -518,3 +518,12 @@ class gridflow_sizing:
         yield "fixed-exactly-with-a-cell", eq(_has(result, FIXED), n_cells(old) > 0)
         yield "never-box", neg(_has(result, BOX))
         yield "frame", n_cells(s) == n_cells(old)
+
+
+# ==================================================================================================== Frame (inherited)
+# Frame defines neither sizing() nor pack(): it inherits Widget.sizing (its `_sizing` is {BOX}) and Widget.pack.
+from contracts.C01_leafs import _inherited_pack, _inherited_sizing  # noqa: E402
+from contracts.C09_frame import FRAME  # noqa: E402
+
+frame_pack = _inherited_pack("Frame", FRAME, (BOX,), None, lambda s: True)
+frame_sizing = _inherited_sizing("Frame", FRAME, (BOX,))
